@@ -64,15 +64,35 @@ fn npy_bases(tier: Tier) -> Vec<NpyBase> {
 #[derive(Clone, Copy, Debug, PartialEq)]
 enum Damage {
     Truncate(usize),
-    Extend(usize),
+    /// extension by n bytes taken from filler alphabet entry f
+    Extend(usize, usize),
 }
+
+/// What the extra trailing bytes are: a byte pattern, zeros, 0xff, and the ASCII whitespace a text
+/// tool would append (`echo >> file`), which a reader must not mistake for "nothing".
+const FILLERS: [&str; 8] = ["pattern", "zeros", "ff", "spaces", "newlines", "crlf", "tabs", "letters"];
+
+fn filler_byte(f: usize, i: usize) -> u8 {
+    match FILLERS[f] {
+        "pattern" => (i as u8).wrapping_mul(37).wrapping_add(1),
+        "zeros" => 0,
+        "ff" => 0xff,
+        "spaces" => b' ',
+        "newlines" => b'\n',
+        "crlf" => [b'\r', b'\n'][i % 2],
+        "tabs" => b'\t',
+        _ => b'A',
+    }
+}
+
+const EXT_LENGTHS: [usize; 22] = [1, 2, 3, 4, 5, 6, 7, 8, 9, 10, 11, 12, 13, 14, 15, 16, 24, 32, 40, 48, 64, 72];
 
 fn damaged(base: &[u8], d: Damage) -> Vec<u8> {
     match d {
         Damage::Truncate(at) => base[..at].to_vec(),
-        Damage::Extend(n) => {
+        Damage::Extend(n, f) => {
             let mut v = base.to_vec();
-            v.extend((0..n).map(|i| (i as u8).wrapping_mul(37).wrapping_add(1)));
+            v.extend((0..n).map(|i| filler_byte(f, i)));
             v
         }
     }
@@ -92,11 +112,12 @@ fn damage_class(base: &NpyBase, d: Damage) -> String {
                 "truncate-inside-value".into()
             }
         }
-        Damage::Extend(n) => {
+        Damage::Extend(n, f) => {
+            let ws = if matches!(FILLERS[f], "spaces" | "newlines" | "crlf" | "tabs") { ",whitespace" } else { "" };
             if n % base.itemsize == 0 {
-                "extend-whole-values".into()
+                format!("extend-whole-values{ws}")
             } else {
-                "extend-partial-value".into()
+                format!("extend-partial-value{ws}")
             }
         }
     }
@@ -213,6 +234,13 @@ fn text_cases(shapes: &[Vec<usize>]) -> Vec<TextCase> {
                 consistent: false,
             });
         }
+        // a surplus of k values for every k up to twice the declared count (whole surplus rows and
+        // multiples of every axis length among them)
+        for k in 2..=2 * toks.len() {
+            let mut t = toks.clone();
+            t.extend((0..k).map(|i| format!("{}.00", 7 + i % 3)));
+            out.push(TextCase { text: render(s, &t), what: format!("shape {s:?}: {k} surplus value tokens appended"), class: "surplus-tokens", consistent: false });
+        }
         // surplus or missing values that sit on a later line than the first value line
         let line = toks.join(" ");
         let later: Vec<(String, String)> = vec![
@@ -268,7 +296,7 @@ fn text_cases(shapes: &[Vec<usize>]) -> Vec<TextCase> {
 
 pub fn run(tier: Tier) -> i32 {
     let mut rep = Report::new("C16", tier, "fault_enumeration");
-    rep.rule = "npy: for every base file (numpy-layout files in 6 dtypes / 3 versions and sfs-written files, 16 shapes incl. 1-cell and 0-cell) every strict prefix (offset 0..len-1) and every extension by 1..16 bytes must be rejected by Array::read_npy; through the binary, every such damage of selected files for view/fold/stat must exit non-zero by a diagnosed error with empty stdout. text: every single-token deletion, every single-token insertion and every single-axis header edit; rejected iff the token count differs from the product of the declared shape (consistent edits are counted separately). Non-trivial = damage that leaves a well-formed header (truncation in the data, extension, token edits).".into();
+    rep.rule = "npy: for every base file (numpy-layout files in 6 dtypes / 3 versions and sfs-written files, 16 shapes incl. 1-cell and 0-cell) every strict prefix (offset 0..len-1) and every extension by 1..16, 24..72 bytes (whole surplus values and rows) of 8 byte kinds incl. ASCII whitespace must be rejected by Array::read_npy; through the binary, every such damage of selected files for view/fold/stat must exit non-zero by a diagnosed error with empty stdout. text: every single-token deletion, every single-token insertion and every single-axis header edit; rejected iff the token count differs from the product of the declared shape (consistent edits are counted separately). Non-trivial = damage that leaves a well-formed header (truncation in the data, extension, token edits).".into();
 
     let bases = npy_bases(tier);
     let mut cases: Vec<(usize, Damage)> = Vec::new();
@@ -276,8 +304,10 @@ pub fn run(tier: Tier) -> i32 {
         for at in 0..b.bytes.len() {
             cases.push((bi, Damage::Truncate(at)));
         }
-        for n in 1..=16 {
-            cases.push((bi, Damage::Extend(n)));
+        for n in EXT_LENGTHS {
+            for f in 0..FILLERS.len() {
+                cases.push((bi, Damage::Extend(n, f)));
+            }
         }
     }
     let res = par_map(cases.len(), |i| eval_npy_lib(&bases[cases[i].0], cases[i].1));
@@ -296,7 +326,7 @@ pub fn run(tier: Tier) -> i32 {
         name: "lib: npy truncations and extensions".into(),
         evaluations: cases.len() as u64,
         nontrivial: nt,
-        note: format!("{} base files, every prefix and every extension 1..16", bases.len()),
+        note: format!("{} base files, every prefix and every extension by 1..16, 24, 32, 40, 48, 64, 72 bytes of 8 kinds (byte pattern, zeros, 0xff, spaces, newlines, CRLF, tabs, letters)", bases.len()),
         exhaustive: true,
         extra: vec![],
     });
@@ -321,9 +351,13 @@ pub fn run(tier: Tier) -> i32 {
                 cli_cases.push((bi, Damage::Truncate(at), c));
             }
         }
-        for n in 1..=16 {
-            for c in 0..3 {
-                cli_cases.push((bi, Damage::Extend(n), c));
+        for n in EXT_LENGTHS {
+            for f in 0..FILLERS.len() {
+                for c in 0..3 {
+                    if tier.thorough() || n <= 16 || f == 0 || (n + f + c) % 3 == 0 {
+                        cli_cases.push((bi, Damage::Extend(n, f), c));
+                    }
+                }
             }
         }
     }
@@ -406,7 +440,7 @@ pub fn run(tier: Tier) -> i32 {
         name: "cli: damaged text files".into(),
         evaluations: jobs.len() as u64,
         nontrivial: n_inconsistent,
-        note: format!("{} shapes: every token deletion / insertion / header edit, surplus values on later lines (third line, duplicated value line, concatenated spectra); {} runs were consistent edits excluded from the rejection oracle", tshapes.len(), consistent),
+        note: format!("{} shapes: every token deletion / insertion / header edit, every surplus of 2..2n tokens, surplus values on later lines (third line, duplicated value line, concatenated spectra); {} runs were consistent edits excluded from the rejection oracle", tshapes.len(), consistent),
         exhaustive: true,
         extra: vec![("consistent_edits".into(), J::Int(consistent as i64))],
     });
